@@ -30,27 +30,39 @@ Proof. cbn. rewrite N.eqb_refl. reflexivity. Qed.
 Definition Body (sess : list N) (a : assoc) (t : thr) : Prop :=
   match t_pc t with
   | 0 => a_del a = [] /\ a_store a = sess /\ cclosed (a_shut a) = false
-  | 1 | 2 => a_del a = [] /\ a_store a = sess /\ cclosed (a_shut a) = true
+  | 1 => a_del a = [] /\ a_store a = sess /\ cclosed (a_shut a) = true
+  | 2 => a_del a = [] /\ a_store a = sess /\ cclosed (a_shut a) = true /\ cclosed (a_hbc a) = true
   | 3 => exists x r, t_it t = x :: r /\ a_store a = x :: r /\ a_del a ++ x :: r = sess /\ cclosed (a_shut a) = true
+                     /\ cclosed (a_hbc a) = true
   | 4 => exists x r d, t_it t = x :: r /\ a_store a = x :: r /\ a_del a = d ++ [x] /\ d ++ x :: r = sess
-                       /\ cclosed (a_shut a) = true
-  | 5 | 6 | 7 => a_del a = sess /\ a_store a = [] /\ cclosed (a_shut a) = true
+                       /\ cclosed (a_shut a) = true /\ cclosed (a_hbc a) = true
+  | 5 | 6 => a_del a = sess /\ a_store a = [] /\ cclosed (a_shut a) = true /\ cclosed (a_hbc a) = true
+  | 7 => a_del a = sess /\ a_store a = [] /\ cclosed (a_shut a) = true /\ cclosed (a_hbc a) = true /\ a_sock a = true
   | _ => False
   end.
 
-(* a thread executes doShutdown iff it is the one recorded by the Once *)
+Definition code_len (r : role) : nat := List.length (code (home r)).
+
+(* a thread executes doShutdown iff it is the one recorded by the Once; otherwise it is inside its own function *)
 Definition fn_ok (a : assoc) (r : role) : Prop :=
-  (t_fn (get_thr a r) = FDo /\ a_once a = ORun r) \/ (t_fn (get_thr a r) = home r /\ a_once a <> ORun r).
+  (t_fn (get_thr a r) = FDo /\ a_once a = ORun r)
+  \/ (t_fn (get_thr a r) = home r /\ a_once a <> ORun r /\ t_pc (get_thr a r) < code_len r).
 
 Definition Data (sess : list N) (a : assoc) : Prop :=
   match a_once a with
   | ONew => a_del a = [] /\ a_store a = sess /\ cclosed (a_shut a) = false
-  | ORun r0 => is_assoc_role r0 = true /\ Body sess a (get_thr a r0)
-  | ODone => a_del a = sess /\ a_store a = [] /\ cclosed (a_shut a) = true
+  | ORun r0 => is_assoc_role r0 = true /\ t_st (get_thr a r0) = TRunning /\ t_ret (get_thr a r0) < code_len r0
+               /\ Body sess a (get_thr a r0)
+  | ODone => a_del a = sess /\ a_store a = [] /\ cclosed (a_shut a) = true /\ cclosed (a_hbc a) = true /\ a_sock a = true
   end.
 
+(* connTimeout holds at most the one value the reader sends before it returns *)
+Definition tmo_ok (a : assoc) : Prop :=
+  cclosed (a_tmo a) = false /\ ccap (a_tmo a) = 1
+  /\ (cbuf (a_tmo a) = [] \/ (t_fn (a_rd a) = FReader /\ t_pc (a_rd a) = 3)).
+
 Definition AInv (sess : list N) (a : assoc) : Prop :=
-  fn_ok a RRd /\ fn_ok a RSel /\ fn_ok a RHb /\ fn_ok a RFst /\ Data sess a /\ cclosed (a_tmo a) = false.
+  fn_ok a RRd /\ fn_ok a RSel /\ fn_ok a RHb /\ fn_ok a RFst /\ Data sess a /\ tmo_ok a.
 
 (* bookkeeping for "forgotten": what one step of an association thread does to pConnDone and pConns, and whether
    the association has reported its address (rep) *)
@@ -65,16 +77,21 @@ Definition delta (me : N) (r : role) (a : assoc) (nd nd' : node) (a2 : assoc) : 
   /\ (t_st (a_fst a) = TFinished -> t_st (a_fst a2) = TFinished).
 
 Ltac finish_inv :=
-  unfold AInv, fn_ok, Data, Body, delta, rep, at_pc in *; cbn in *;
+  unfold AInv, fn_ok, Data, Body, tmo_ok, code_len, delta, rep, at_pc in *; cbn in *;
   repeat match goal with
          | H : _ /\ _ |- _ => destruct H
          | H : exists _, _ |- _ => destruct H
          | H : _ :: _ = _ :: _ |- _ => injection H; clear H; intros
          end; subst;
-  repeat split; try tauto; try congruence;
-  try (left; split; congruence); try (right; split; congruence);
-  try (rewrite ?orb_false_r, ?orb_true_r; reflexivity);
-  try solve [intuition (try discriminate; try congruence)].
+  repeat match goal with H : t_st ?t = _ |- context [t_st ?t] => rewrite H end;
+  repeat match goal with |- context [match ?d with DRelease => _ | DSetup => _ | DOther => _ end] => is_var d; destruct d end;
+  repeat split;
+  first [ assumption | reflexivity | discriminate | congruence | lia | tauto
+        | (left; split; congruence) | (right; split; congruence)
+        | (right; repeat split; first [congruence | lia]) | (left; repeat split; first [congruence | lia])
+        | (rewrite ?orb_false_r, ?orb_true_r; reflexivity)
+        | solve [intuition (try discriminate; try congruence)]
+        | idtac ].
 
 Ltac close_rest :=
   try rewrite remove_first_head;
@@ -90,8 +107,8 @@ Ltac do_script T HT :=
   let rret := fresh "rret" in let rit := fresh "rit" in
   destruct T as [rst rfn rpc rret rit];
   unfold fn_ok in HT; cbn in HT;
-  destruct HT as [[? _]|[_ ?]]; [subst rfn|congruence];
-  match goal with Hd : Data _ _ |- _ => unfold Data in Hd; cbn in Hd; destruct Hd as [_ Hb]; unfold Body in Hb; cbn in Hb end;
+  destruct HT as [[? _]|[_ [? _]]]; [subst rfn|congruence];
+  match goal with Hd : Data _ _ |- _ => unfold Data in Hd; cbn in Hd; destruct Hd as [_ [? [? Hb]]]; unfold Body in Hb; cbn in Hb end;
   match goal with
   | H : thread_step _ _ _ _ _ _ = _ |- _ =>
     unfold thread_step in H; cbn in H; destruct rst; try discriminate H;
@@ -106,7 +123,7 @@ Ltac home_script T HT :=
   let rret := fresh "rret" in let rit := fresh "rit" in
   destruct T as [rst rfn rpc rret rit];
   unfold fn_ok in HT; cbn in HT;
-  destruct HT as [[_ ?]|[? _]]; [congruence|subst rfn];
+  destruct HT as [[_ ?]|[? [_ ?]]]; [congruence|subst rfn];
   match goal with
   | H : thread_step _ _ _ _ _ _ = _ |- _ =>
     unfold thread_step in H; cbn in H; destruct rst; try discriminate H;
@@ -129,7 +146,7 @@ Ltac panic_script T HT :=
   let rret := fresh "rret" in let rit := fresh "rit" in
   destruct T as [rst rfn rpc rret rit];
   unfold fn_ok in HT; cbn in HT;
-  destruct HT as [[? ?]|[? ?]]; subst;
+  destruct HT as [[? ?]|[? [? ?]]]; subst;
   match goal with
   | H : thread_step _ _ _ _ _ _ = _ |- _ =>
     unfold thread_step in H; cbn in H; destruct rst; try discriminate H;
